@@ -91,4 +91,9 @@ func DumpInputWrites(cfg string) {
 		fmt.Println(l)
 	}
 	fmt.Println(st["exported functions"], st["pointer-like parameters"])
+	st = checkReturnFresh(p, r.Rule("RETURN-fresh", "", 0), true)
+	for _, l := range st["discovered"].([]string) {
+		fmt.Println(l)
+	}
+	fmt.Println(st["exported functions returning byte slices"])
 }
